@@ -85,6 +85,14 @@ class Sim:
         ctx.need(self.main is not None, "main simulation loop (a top-level for loop calling run_one_tick) not found in run_simulator")
         self.tick = self.main.target.id if isinstance(self.main.target, ast.Name) else None
         self.hid = self.g.node_of(self.main).id
+        # names by role: the parameter dict is what Executor(**X) receives; the executor is what that call is bound to
+        self.params, self.executor = "params", "executor"
+        for n in own_nodes(f.node):
+            if isinstance(n, ast.Assign) and isinstance(n.value, ast.Call) and norm.call_name(n.value) == "Executor" and isinstance(n.targets[0], ast.Name):
+                self.executor = n.targets[0].id
+                for k in n.value.keywords:
+                    if k.arg is None and isinstance(k.value, ast.Name):
+                        self.params = k.value.id
 
     def every_iteration(self, node) -> bool:
         g = self.g
@@ -97,7 +105,7 @@ def check_main_loop(ctx, num=3):
     f, g, lp = sm.f, sm.g, sm.main
     okr = sm.tick is not None and isinstance(lp.iter, ast.Call) and norm.is_name(lp.iter.func, "range") and len(lp.iter.args) == 1
     mt = norm.U(norm.subst(lp.iter.args[0], sm.env)) if okr else None
-    okr = okr and mt in ("int(params['duration'] * params['ticks_per_second'])", "int(params['duration'] * ticks_per_second)")
+    okr = okr and mt in (f"int({sm.params}['duration'] * {sm.params}['ticks_per_second'])",)
     ctx.ob(num, "K7", "the run lasts int(duration * ticks_per_second) ticks, numbered from 0", okr, f, lp, detail=f"{stmt_text(lp)}; bound resolves to {mt}")
     calls = [c for c in ast.walk(lp) if isinstance(c, ast.Call) and norm.call_name(c) == "run_one_tick" and isinstance(c.func, ast.Attribute)]
     wl = [c for c in calls if not c.args and not c.keywords]
@@ -324,10 +332,10 @@ def check_tail(ctx, sm, num=5):
     ctx.ob(num, "K6", "statistic `failure_error_counts` is the per-error counter", v is not None and ecn is not None and norm.U(v) in (ecn, f"dict({ecn})"), f, call,
            construct="SimulatorStats(failure_error_counts=...)", detail=f"{norm.U(v) if v is not None else None}; counter: {ecn}")
     v = kw.get("containers_completed")
-    ctx.ob(num, "K6", "statistic `containers_completed` is the executor's count of successful containers", v is not None and norm.U(norm.subst(v, env)) == "executor.num_completed()", f, call,
+    ctx.ob(num, "K6", "statistic `containers_completed` is the executor's count of successful containers", v is not None and norm.U(norm.subst(v, env)) == f"{sm.executor}.num_completed()", f, call,
            construct="SimulatorStats(containers_completed=...)", detail=f"{norm.U(v) if v is not None else None}")
     v = kw.get("throughput")
-    okt = v is not None and ratform.same(norm.subst(v, env), ratform.parse("executor.num_completed() / params['duration']"))
+    okt = v is not None and ratform.same(norm.subst(v, env), ratform.parse(f"{sm.executor}.num_completed() / {sm.params}['duration']"))
     ctx.ob(num, "K7", "throughput = successful containers / simulated duration in seconds", okt, f, call, construct="throughput", detail=f"resolves to {norm.U(norm.subst(v, env)) if v is not None else None}")
     # per-class stats
     arr, lat = nm.get("arrivals"), getattr(sm, "lat_list", None)
@@ -335,7 +343,7 @@ def check_tail(ctx, sm, num=5):
         v = kw.get(fld)
         r = norm.subst(v, env) if v is not None else None
         ok = isinstance(r, ast.Call) and norm.call_name(r) == "compute_pipeline_stats" and len(r.args) == 3 and arr and lat and \
-            norm.U(r.args[0]) == f"{arr}[Priority.{member}]" and norm.U(r.args[1]) == f"{lat}[Priority.{member}]" and norm.U(norm.subst(r.args[2], env)) in ("params['ticks_per_second']", "ticks_per_second")
+            norm.U(r.args[0]) == f"{arr}[Priority.{member}]" and norm.U(r.args[1]) == f"{lat}[Priority.{member}]" and norm.U(norm.subst(r.args[2], env)) in (f"{sm.params}['ticks_per_second']",)
         ctx.ob(num, "K6", f"`{fld}` is computed from the arrivals and latencies of class {member} only", ok, f, call, construct=f"SimulatorStats({fld}=...)",
                detail=f"{norm.U(r) if r is not None else None}")
     v = kw.get("pipelines_all")
